@@ -98,7 +98,7 @@ type WaitGroup struct {
 }
 
 func (w *WaitGroup) Add(d int) {
-	if simrt.K != nil {
+	if simrt.Active() != nil {
 		w.m.Add(d)
 	}
 	w.real.Add(d)
